@@ -526,6 +526,11 @@ def _key_desc(K, func):
             e = vals[0]
         elif not vals:
             return 'the object itself'
+    return _expr_desc(e)
+
+
+def _expr_desc(e):
+    """shape of a key expression without the names of locals: table[...] / f(...) / .attr, joined by the operators"""
     if isinstance(e, ast.Call):
         return f"{_terminal(e.func) or norm(e.func)}(...)"
     if isinstance(e, ast.Subscript):
@@ -534,7 +539,15 @@ def _key_desc(K, func):
         return f".{e.attr}"
     if isinstance(e, ast.Name):
         return 'the object itself'
-    return type(e).__name__
+    if isinstance(e, ast.BoolOp):
+        return (' or ' if isinstance(e.op, ast.Or) else ' and ').join(_expr_desc(v) for v in e.values)
+    if isinstance(e, ast.IfExp):
+        return f"{_expr_desc(e.body)} if ... else {_expr_desc(e.orelse)}"
+    if isinstance(e, ast.BinOp):
+        return f"{_expr_desc(e.left)} {type(e.op).__name__.lower()} {_expr_desc(e.right)}"
+    if isinstance(e, ast.Constant):
+        return repr(e.value)
+    return norm(e)[:60]
 
 
 def _dedup_sites(func):
@@ -1056,44 +1069,41 @@ def rule_name(repo):
     passthru = [x for x in rets if isinstance(x.value, ast.Name) and x.value.id == full]
     if not passthru:
         r.ok(vm, 'get_component_unique_name', "the full name is never returned unhashed", nontrivial=False)
-    for x in passthru:
-        gs = [g for g in guards_of(x) if g.kind in ('if', 'exit', 'assert')]
-        needed = set()
-        for g in gs:
-            needed |= _names_of(g.test)
-        env0 = _fold_locals(f, x, needed - {full})
-        # a local holding the class name (`<rtype>.get_name()`): a Python class name is a legal identifier, so the
-        # adversarial names keep it clean and put the character into the parameter part
-        other_strings = []
-        for nm in sorted(needed - {full} - set(env0)):
-            vals = [v for v in la.get(nm, []) if v is not None]
-            if vals and all(isinstance(v, ast.Call) and isinstance(v.func, ast.Attribute) and v.func.attr == 'get_name' for v in vals):
-                env0[nm] = 'Comp'
-                other_strings.append(nm)
+    if passthru:
+        # the function body is interpreted statement by statement (loops with break / else, early returns) on adversarial
+        # names: class name clean, one non-identifier character in the parameter part
+        def run(name):
+            def leaf(e):
+                if isinstance(e, ast.Call) and norm(e.func).endswith('get_component_full_name'):
+                    return name
+                if isinstance(e, ast.Call) and isinstance(e.func, ast.Attribute) and e.func.attr == 'get_name' and not e.args:
+                    return 'Comp'
+                return NotImplemented
+            ex = _FnExec({}, arith=True, funcs=_GUARD_FUNCS, leaf=leaf)
+            return ex.call(f)
         leak, evals = [], 0
         for ch in PRINTABLE:
             if ch in LEGAL:
                 continue
             for name in ('Comp__p_' + ch + '1', ch + 'Comp', 'Comp__p_1' + ch):
-                env = dict(env0)
-                env[full] = name
-                ev = _GuardEval(env, arith=True, funcs=_GUARD_FUNCS)
                 evals += 1
-                if all(bool(ev.ev(g.test)) == g.polarity for g in gs):
+                kind, val = run(name)
+                if kind == 'return' and isinstance(val, str) and val == name:
                     leak.append(ch)
                     break
-        # sanity: an overlong legal name must not pass either way is fine; a short legal one may
-        r.evaluations += evals
+        kind, val = run('Comp__p_1')
+        r.evaluations += evals + 1
+        gs = [g for x in passthru for g in guards_of(x) if g.kind in ('if', 'exit', 'assert')]
         if leak:
             cons = "pass-through guard admits non-identifier characters (hex) " + _hex_ranges(leak)
-            tested_other = [nm for nm in other_strings if any(nm in _names_of(g.test) for g in gs)]
+            tested_other = [nm for nm in comp if any(nm in _names_of(g.test) for g in gs)]
             r.bad(vm, 'get_component_unique_name', cons,
                   (f"the character test looks at `{tested_other[0]}` (the class name) instead of the returned `{full}`: "
                    if tested_other else "") +
                   f"a full name containing any of {''.join(leak)!r} is returned unchanged as the module name "
                   f"(guard: {' and '.join(repr(g) for g in gs)[:160]}); str() of tuple / negative / string / float / "
                   f"keyword parameter values produces such characters, so an illegal SystemVerilog identifier is emitted",
-                  x.lineno)
+                  passthru[0].lineno)
         else:
             r.ok(vm, 'get_component_unique_name', "pass-through only for names over [A-Za-z0-9_$]")
     _hash_facts(r, vm, f, 'get_component_unique_name', {full}, comp or ['get_name'], "component name")
@@ -1276,32 +1286,68 @@ def _lambda_block_names(r, repo):
     m = repo.mod(LEVEL3)
     f = m.get_func('ComponentLevel3._create_assign_lambda')
     defs = [c for c in ast.walk(f) if isinstance(c, ast.Call) and norm(c.func).endswith('FunctionDef')]
-    names = [k.value for c in defs for k in c.keywords if k.arg == 'name']
-    names = [n for n in names if any(isinstance(c, ast.Call) and norm(c.func) == 'repr' for c in ast.walk(_inline(n, f)))]
+    la = _local_assignments(f)
+
+    def closure_of(e):
+        seen, todo = set(), list(_names_of_raw(e))
+        while todo:
+            nm = todo.pop()
+            if nm in seen or nm not in la:
+                continue
+            seen.add(nm)
+            for v in la[nm]:
+                if v is not None:
+                    todo.extend(_names_of_raw(v))
+        return seen
+    names = []
+    for c in defs:
+        for k in c.keywords:
+            if k.arg == 'name':
+                cl = closure_of(k.value)
+                if any(isinstance(x, ast.Call) and norm(x.func) == 'repr' for nm in cl for v in la[nm] if v is not None
+                       for x in ast.walk(v)) or any(isinstance(x, ast.Call) and norm(x.func) == 'repr' for x in ast.walk(k.value)):
+                    names.append((c, k.value, cl))
     if len(names) != 1:
         raise AnalysisError("_create_assign_lambda: the generated update block FunctionDef(name=<from repr(signal)>) not found")
-    expr = _inline(names[0], f)
+    defcall, expr, cl = names[0]
+    # the statements that compute the name (assignments / loops over the names it is built from), in program order, up
+    # to the statement that creates the FunctionDef
+    top_stmt = defcall
+    while parent(top_stmt) is not f:
+        top_stmt = parent(top_stmt)
+    pre = []
+    for st in f.body:
+        if st is top_stmt:
+            break
+        stored = {x.id for x in ast.walk(st) if isinstance(x, ast.Name) and isinstance(x.ctx, ast.Store)}
+        if stored & cl and isinstance(st, (ast.Assign, ast.AugAssign, ast.While, ast.For, ast.If)):
+            pre.append(st)
     badform = None
     for form in REPR_FORMS:
-        class E(_MiniExec):
-            def ev_Call(self, e, form=form):
-                if isinstance(e.func, ast.Name) and e.func.id == 'repr':
-                    return form
-                if isinstance(e.func, ast.Attribute) and norm(e.func.value) == 're' and e.func.attr == 'sub' and len(e.args) == 3:
-                    return re.sub(self.ev(e.args[0]), self.ev(e.args[1]), self.ev(e.args[2]))
-                if isinstance(e.func, ast.Attribute) and e.func.attr == 'translate':
-                    raise AnalysisError("str.translate in the block-name builder is outside the domain")
-                return super().ev_Call(e)
-        r.evaluations += 1
-        got = E({}, arith=True).ev(expr)
-        if not (isinstance(got, str) and re.fullmatch(r'[A-Za-z_][A-Za-z0-9_$]*', got)) and badform is None:
-            badform = (form, got)
+        for taken in (False, True):
+            # `taken`: the plain name already belongs to another update block (the builder then appends a counter)
+            def run(names_taken, form=form):
+                def leaf(e):
+                    if isinstance(e, ast.Call) and isinstance(e.func, ast.Name) and e.func.id == 'repr':
+                        return form
+                    if isinstance(e, ast.Attribute) and e.attr in ('name_upblk', 'name_func'):
+                        return names_taken
+                    return NotImplemented
+                ex = _FnExec({}, arith=True, funcs=_GUARD_FUNCS, leaf=leaf)
+                ex.block(pre)
+                return ex.ev(expr)
+            r.evaluations += 1
+            got = run(set())
+            if taken and isinstance(got, str):
+                got = run({got})
+            if not (isinstance(got, str) and re.fullmatch(r'[A-Za-z_][A-Za-z0-9_$]*', got)) and badform is None:
+                badform = (form, got)
     cons = "block name of a lambda connection is a legal identifier for every signal repr"
     if badform:
         r.bad(m, 'ComponentLevel3._create_assign_lambda', cons,
               f"for the signal `{badform[0]}` the generated update block is called {badform[1]!r}; the translators emit the "
               f"block name as the label of the always block (`begin : {badform[1]}`), which is not a legal identifier",
-              names[0].lineno)
+              expr.lineno)
     else:
         r.ok(m, 'ComponentLevel3._create_assign_lambda', cons)
 
@@ -1809,7 +1855,9 @@ def rule_once(repo):
     _wrapper_guard(r, repo, scope)
     _prefix_recursion(r, repo, scope)
     _paired_port_tests(r, repo)
-    r.require_floor(29)
+    _same_text_predicate(r, repo)
+    _definition_key(r, repo)
+    r.require_floor(31)
     return r
 
 
@@ -1877,6 +1925,73 @@ def _prefix_recursion(r, repo, scope):
                     r.ok(m, qualname(f), cons)
     if n < 4:
         raise AnalysisError(f"R-C13-once: only {n} recursive identifier generators found in the structural translators")
+
+
+def _same_text_predicate(r, repo):
+    """verilog_cmp decides whether a freshly translated file is the one already on disk (the import pass then reuses the
+    cached model under that module name): it must be True exactly when ALL line pairs are equal -- evaluated on every pair
+    of line lists over a two-letter alphabet up to length 3"""
+    import itertools
+    m = repo.mod(VUTIL)
+    f = m.functions.get('verilog_cmp')
+    if f is None:
+        raise AnalysisError("anchor vanished: verilog_cmp")
+    params = [a.arg for a in f.args.args]
+    if len(params) != 2:
+        raise AnalysisError("verilog_cmp: signature changed")
+    lists = [list(t) for n in range(0, 4) for t in itertools.product('ab', repeat=n)]
+    wrong = None
+    for A in lists:
+        for B in lists:
+            def leaf(e, A=A, B=B):
+                if isinstance(e, ast.Call) and norm(e.func).endswith('get_lean_verilog_file') and len(e.args) == 1 and \
+                        isinstance(e.args[0], ast.Name) and e.args[0].id in params:
+                    return list(A) if e.args[0].id == params[0] else list(B)
+                return NotImplemented
+            r.evaluations += 1
+            kind, val = _FnExec({params[0]: 'f0', params[1]: 'f1'}, arith=True,
+                                funcs=dict(_GUARD_FUNCS, range=lambda *a: list(range(*a)), enumerate=lambda v: list(enumerate(v))),
+                                leaf=leaf).call(f)
+            got = bool(val) if kind == 'return' and not isinstance(val, _Opaque) else None
+            if got != (A == B) and wrong is None:
+                wrong = (A, B, got)
+    cons = "verilog_cmp(a, b) is True iff every line pair is equal"
+    if wrong:
+        r.bad(m, 'verilog_cmp', cons,
+              f"for line lists {wrong[0]} and {wrong[1]} the predicate gives {wrong[2]} (expected {wrong[0] == wrong[1]}): a later "
+              f"equal line overwrites an earlier difference, so a different design with the same module name is reported "
+              f"unchanged and the stale cached model is reused under that name", f.lineno)
+    else:
+        r.ok(m, 'verilog_cmp', cons)
+
+
+def _definition_key(r, repo):
+    """the table of emitted definitions is keyed by the name the definition is emitted under: the module header uses the
+    explicit module name when one is set, so the key must take it into account as well"""
+    tm = repo.mod(TRANSLATOR)
+    tc = tm.get_func('mk_RTLIRTranslator._RTLIRTranslator.translate.translate_component')
+    stores = [n for n in _own(tc) if isinstance(n, ast.Assign) and
+              any(isinstance(t, ast.Subscript) and norm(t.value) == tc.args.args[1].arg for t in n.targets)]
+    if len(stores) != 1:
+        raise AnalysisError("translate_component: the store of the component text not found")
+    key = [t.slice for t in stores[0].targets if isinstance(t, ast.Subscript)][0]
+    kx = _inline(key, tc)
+    attrs = {x.attr for x in ast.walk(kx) if isinstance(x, ast.Attribute)}
+    header_uses_explicit = False
+    for rel in (VTRANSLATOR, YTRANSLATOR):
+        hm = repo.mod(rel)
+        for fn in [n for n in ast.walk(hm.tree) if isinstance(n, ast.FunctionDef) and n.name == 'rtlir_tr_component']:
+            ch = _if_chain_assign(fn, 'module_name')
+            if ch and any('explicit_module_name' in norm(v) for t, v in ch):
+                header_uses_explicit = True
+    cons = "definitions table keyed by the name the module is emitted under"
+    if header_uses_explicit and 'component_explicit_module_name' not in attrs and 'component_unique_name' in attrs:
+        r.bad(tm, qualname(tc), cons,
+              f"the table is keyed by `{norm(kx)}` (the unique name) while the module header is `explicit_module_name` whenever one "
+              f"is set: of two instances of one class, one with an explicit module name, only the first is emitted -- under its "
+              f"own header name -- and the other one's instantiated module name is defined nowhere", stores[0].lineno)
+    else:
+        r.ok(tm, qualname(tc), cons)
 
 
 def _paired_port_tests(r, repo):
@@ -2101,6 +2216,143 @@ class _MiniExec(_GuardEval):
                 self.ev(st.value)
             else:
                 raise AnalysisError(f"statement outside the element-lookup domain: {norm(st)[:60]}")
+
+
+class _Opaque:
+    """a value the abstract execution does not model (hash objects, digests, ...): absorbs arithmetic, never equals a name"""
+    def __add__(self, o):
+        return self
+    __radd__ = __sub__ = __rsub__ = __mul__ = __rmul__ = __mod__ = __getitem__ = __add__
+
+    def __getattr__(self, nm):
+        if nm.startswith('__'):
+            raise AttributeError(nm)
+        return lambda *a, **k: self
+
+
+class _Break(Exception):
+    pass
+
+
+class _Continue(Exception):
+    pass
+
+
+class _FnExec(_MiniExec):
+    """statement-wise abstract execution of one small pure function: if / for (break, continue, else) / while / return /
+    assignments; anything it cannot evaluate in an assignment becomes an opaque value (a test on an opaque value is an
+    analysis error)"""
+    def call(self, func):
+        from sa.minieval import Returned
+        try:
+            self.block(func.body)
+        except Returned as ret:
+            return ('return', ret.value)
+        return ('fall', None)
+
+    def ev_Name(self, e):
+        if e.id not in self.env and e.id in ('True', 'False', 'None'):
+            return {'True': True, 'False': False, 'None': None}[e.id]
+        return super().ev_Name(e)
+
+    def ev_Call(self, e):
+        if isinstance(e.func, ast.Name) and e.func.id == 'zip':
+            return list(zip(*[self.ev(a) for a in e.args]))
+        if isinstance(e.func, ast.Name) and e.func.id in self.funcs and not e.keywords:
+            args = [self.ev(a) for a in e.args]
+            if any(isinstance(a, _Opaque) for a in args):
+                return _Opaque()
+            return self.funcs[e.func.id](*args)
+        if isinstance(e.func, ast.Attribute) and norm(e.func.value) == 're':
+            if e.func.attr == 'sub' and len(e.args) == 3:
+                return re.sub(self.ev(e.args[0]), self.ev(e.args[1]), self.ev(e.args[2]))
+            return _GuardEval.ev_Call(self, e)
+        if isinstance(e.func, ast.Attribute):
+            try:
+                v = self.ev(e.func.value)
+            except AnalysisError:
+                v = None
+            if isinstance(v, _Opaque):
+                return v
+        return super().ev_Call(e)
+
+    def bind(self, t, v):
+        if isinstance(t, ast.Name):
+            self.env[t.id] = v
+        elif isinstance(t, (ast.Tuple, ast.List)):
+            for x, y in zip(t.elts, v):
+                self.bind(x, y)
+        else:
+            raise AnalysisError(f"assignment target outside the domain: {norm(t)}")
+
+    def soft(self, e):
+        try:
+            return self.ev(e)
+        except (AnalysisError, TypeError):
+            return _Opaque()
+
+    def block(self, stmts, fuel=2000):
+        from sa.minieval import Returned
+        for st in stmts:
+            if isinstance(st, ast.Expr):
+                self.soft(st.value)
+            elif isinstance(st, ast.Assign):
+                v = self.soft(st.value)
+                for t in st.targets:
+                    if isinstance(t, (ast.Name, ast.Tuple, ast.List)) and not (isinstance(v, _Opaque) and not isinstance(t, ast.Name)):
+                        self.bind(t, v)
+            elif isinstance(st, ast.AugAssign) and isinstance(st.target, ast.Name):
+                v = self.soft(ast.BinOp(left=ast.Name(id=st.target.id, ctx=ast.Load()), op=st.op, right=st.value))
+                self.env[st.target.id] = v
+            elif isinstance(st, ast.Return):
+                raise Returned(None if st.value is None else self.soft(st.value))
+            elif isinstance(st, ast.If):
+                t = self.ev(st.test)
+                if isinstance(t, _Opaque):
+                    raise AnalysisError(f"test on a value outside the domain: {norm(st.test)[:60]}")
+                self.block(st.body if t else st.orelse)
+            elif isinstance(st, (ast.For, ast.While)):
+                broke = False
+                if isinstance(st, ast.For):
+                    it = self.ev(st.iter)
+                    if isinstance(it, _Opaque):
+                        raise AnalysisError(f"loop over a value outside the domain: {norm(st.iter)[:60]}")
+                    seq = list(it)
+                else:
+                    seq = None
+                i = 0
+                while True:
+                    fuel -= 1
+                    if fuel < 0:
+                        raise AnalysisError("abstract execution does not terminate")
+                    if seq is not None:
+                        if i >= len(seq):
+                            break
+                        self.bind(st.target, seq[i])
+                        i += 1
+                    elif not self.ev(st.test):
+                        break
+                    try:
+                        self.block(st.body)
+                    except _Break:
+                        broke = True
+                        break
+                    except _Continue:
+                        continue
+                if not broke:
+                    self.block(st.orelse)
+            elif isinstance(st, ast.Break):
+                raise _Break()
+            elif isinstance(st, ast.Continue):
+                raise _Continue()
+            elif isinstance(st, ast.Pass):
+                pass
+            elif isinstance(st, ast.Assert):
+                pass
+            elif isinstance(st, (ast.Import, ast.ImportFrom)):
+                pass
+            else:
+                raise AnalysisError(f"statement outside the domain: {norm(st)[:60]}")
 
 
 def _element_order(r, m, top, host, call, idx_params):
@@ -2572,8 +2824,69 @@ def rule_state(repo):
         if init_only:
             r.observations.append(f"{backend}: attributes bound only in __init__ (mutated in place during translation, "
                                   f"balanced push/pop assumed): {init_only}")
-    r.require_floor(7)
+    _distinct_tables(r, repo)
+    r.require_floor(8)
     return r
+
+
+def _distinct_tables(r, repo):
+    """two per-translation tables are two objects: no chained assignment / shared local binds ONE mutable literal to two
+    names that are both filled by item stores"""
+    scope = [f for f in scope_files(repo) if f not in DEBUG_ONLY]
+    item_stored = set()
+    for rel in scope:
+        for n in ast.walk(repo.mod(rel).tree):
+            if isinstance(n, (ast.Assign, ast.AugAssign)):
+                for t in (n.targets if isinstance(n, ast.Assign) else [n.target]):
+                    if isinstance(t, ast.Subscript):
+                        nm = _terminal(t.value)
+                        if nm:
+                            item_stored.add(nm)
+            elif isinstance(n, ast.Call) and isinstance(n.func, ast.Attribute) and n.func.attr in ('append', 'add', 'update', 'setdefault', 'extend'):
+                nm = _terminal(n.func.value)
+                if nm:
+                    item_stored.add(nm)
+
+    def mutable(v):
+        return isinstance(v, (ast.Dict, ast.List, ast.Set, ast.ListComp, ast.DictComp, ast.SetComp)) or (
+            isinstance(v, ast.Call) and isinstance(v.func, ast.Name) and v.func.id in
+            ('dict', 'list', 'set', 'deque', 'defaultdict', 'OrderedDict', 'TranslatorMetadata'))
+    n_chk, found = 0, False
+    for rel in scope:
+        m = repo.mod(rel)
+        for fn in [x for x in ast.walk(m.tree) if isinstance(x, ast.FunctionDef)]:
+            groups = []
+            fresh_locals = {}
+            for st in _own(fn):
+                if not isinstance(st, ast.Assign):
+                    continue
+                if mutable(st.value):
+                    n_chk += 1
+                    if len(st.targets) > 1:
+                        groups.append((st, [t for t in st.targets]))
+                    elif isinstance(st.targets[0], ast.Name):
+                        fresh_locals[st.targets[0].id] = st
+                elif isinstance(st.value, ast.Name) and st.value.id in fresh_locals and \
+                        len(_local_assignments(fn).get(st.value.id, [])) == 1:
+                    fresh_locals.setdefault('@' + st.value.id, [])
+                    fresh_locals['@' + st.value.id].append(st)
+            for k, lst in list(fresh_locals.items()):
+                if k.startswith('@') and len(lst) > 1:
+                    groups.append((lst[0], [t for s_ in lst for t in s_.targets]))
+            for st, tgts in groups:
+                names = [_terminal(t) for t in tgts if _terminal(t)]
+                filled = sorted({nm for nm in names if nm in item_stored})
+                if len(filled) >= 2:
+                    found = True
+                    r.bad(m, qualname(st), f"tables {filled} are one object",
+                          f"`{norm(st)[:100]}` binds ONE mutable object to {filled}, which are filled separately by item stores: "
+                          f"an entry written through one name overwrites the other's (e.g. the no_synthesis flag replaces every "
+                          f"explicit module name before the definition is emitted, so the instantiated name is defined nowhere)",
+                          st.lineno)
+    if n_chk < 20:
+        raise AnalysisError(f"R-C13-state: only {n_chk} table initialisations found")
+    if not found:
+        r.ok(scope[0], '<scope>', f"{n_chk} mutable table initialisations: none shared between two filled names")
 
 
 # ---------------------------------------------------------------------------------------------
@@ -2958,6 +3271,70 @@ class _ReservedVisitor(_Reserved):
         return False
 
 
+VERILOG_2005_KEYWORDS = """always and assign automatic begin buf bufif0 bufif1 case casex casez cell cmos config deassign default
+defparam design disable edge else end endcase endconfig endfunction endgenerate endmodule endprimitive endspecify endtable
+endtask event for force forever fork function generate genvar highz0 highz1 if ifnone incdir include initial inout input
+instance integer join large liblist library localparam macromodule medium module nand negedge nmos nor noshowcancelled not
+notif0 notif1 or output parameter pmos posedge primitive pull0 pull1 pulldown pullup pulsestyle_ondetect pulsestyle_onevent
+rcmos real realtime reg release repeat rnmos rpmos rtran rtranif0 rtranif1 scalared showcancelled signed small specify
+specparam strong0 strong1 supply0 supply1 table task time tran tranif0 tranif1 tri tri0 tri1 triand trior trireg unsigned use
+uwire vectored wait wand weak0 weak1 while wire wor xnor xor""".split()
+SV_CORE_KEYWORDS = """alias always_comb always_ff always_latch assert assume bit break byte chandle class clocking const constraint
+context continue cover do endclass endinterface endpackage endprogram enum export extends extern final foreach iff import
+inside int interface local logic longint modport new null package packed priority program pure rand ref return shortint
+static string struct super this type typedef union unique var virtual void""".split()
+
+
+def _keyword_table(r, repo):
+    """the reserved-word table: every element is ONE string literal (two adjacent literals without a comma are silently
+    concatenated into a word that reserves nothing) and it contains the Verilog-2005 keywords and the core SystemVerilog ones"""
+    import io
+    import tokenize
+    m = repo.mod(VUTIL)
+    tbl = m.assigns.get('verilog_keyword')
+    if tbl is None or not isinstance(tbl, (ast.List, ast.Tuple, ast.Set)):
+        raise AnalysisError("anchor vanished: verilog_keyword table")
+    merged = []
+    words = set()
+    for e in tbl.elts:
+        if not (isinstance(e, ast.Constant) and isinstance(e.value, str)):
+            try:
+                val = _GuardEval({}, arith=True).ev(e)      # an explicit constant expression such as "real" + "time"
+            except AnalysisError:
+                val = None
+            if not isinstance(val, str):
+                raise AnalysisError(f"verilog_keyword: element that is not a string constant: {norm(e)[:40]}")
+            words.add(val)
+            continue
+        words.add(e.value)
+        seg = ast.get_source_segment(m.src, e)
+        toks = [t for t in tokenize.generate_tokens(io.StringIO(seg).readline) if t.type == tokenize.STRING] if seg else []
+        if len(toks) > 1:
+            merged.append((e.value, [ast.literal_eval(t.string) for t in toks]))
+    cons = "verilog_keyword: one literal per element"
+    if merged:
+        w, parts = merged[0]
+        r.bad(m, '<module>', cons,
+              f"adjacent string literals {parts} are implicitly concatenated into the single entry {w!r} (missing comma): "
+              f"{' and '.join(repr(x) for x in parts)} are no longer reserved, so a signal called `{parts[-1]}` is emitted as is",
+              tbl.elts[0].lineno)
+    else:
+        r.ok(m, '<module>', cons + f" ({len(tbl.elts)} entries)")
+    missing = sorted((set(VERILOG_2005_KEYWORDS) | set(SV_CORE_KEYWORDS)) - words)
+    cons = "verilog_keyword covers the Verilog-2005 and core SystemVerilog keywords"
+    if missing:
+        r.bad(m, '<module>', cons, f"not reserved: {missing[:8]}{' ...' if len(missing) > 8 else ''}: a port / wire / block of that "
+              f"name is emitted unchanged", tbl.lineno)
+    else:
+        r.ok(m, '<module>', cons)
+    res = m.assigns.get('verilog_reserved')
+    if res is not None and isinstance(res, ast.Call) and norm(res.func) in ('set', 'frozenset') and \
+            [norm(a) for a in res.args] == ['verilog_keyword']:
+        r.ok(m, '<module>', 'verilog_reserved = set(verilog_keyword)', nontrivial=False)
+    else:
+        r.bad(m, '<module>', 'verilog_reserved', "the set consulted by is_verilog_reserved is no longer built from the whole table")
+
+
 def rule_reserved(repo):
     r = RuleResult('R-C13-reserved', "every generator of a port / wire / constant declaration passes the user-chosen identifier "
                                      "through the reserved-word check on every path (SystemVerilog and Yosys back-ends)")
@@ -3030,6 +3407,7 @@ def rule_reserved(repo):
                   f"for a single (non-array) sub-component the attribute name `{p}` becomes the instance name un-suffixed and no "
                   f"path checks it against the reserved words: `s.buf = Child()` is emitted as `Child_noparam buf ( ... );`, "
                   f"`buf` being a Verilog keyword", f.lineno)
+    _keyword_table(r, repo)
     # ---- behavioural visitors: block labels, loop variables, temporaries
     vb = [f for f in scope if f.startswith(VTRANS + 'behavioral/')]
     yb = [f for f in scope if f.startswith(YTRANS + 'behavioral/')]
@@ -3056,7 +3434,7 @@ def rule_reserved(repo):
                       f"SystemVerilog keyword (e.g. `reg`) is emitted as `begin : reg`", f.lineno)
         if backend == 'verilog' and n < 2:
             raise AnalysisError("anchor vanished: no visitor emitting node.name found in the SystemVerilog behavioural translator")
-    r.require_floor(13)
+    r.require_floor(16)
     return r
 
 
@@ -3287,6 +3665,29 @@ MUTANTS = [
        "  full_name = get_component_full_name( c_rtype )\n  comp_name = c_rtype.get_name()\n"
        "  special_chars = [' ', '<', '>', '.', '[', ']']\n\n"
        "  if len( full_name ) < 64 and not any([c in comp_name for c in special_chars]):\n    return full_name\n\n", 'R-C13-name'),
+    # --- round 8
+    _m('special-character-loop-else-on-the-if', VUTIL,
+       "  if len( full_name ) < 64 and not any([c in full_name for c in special_chars]):\n    return full_name\n",
+       "  if len( full_name ) < 64:\n    for c in special_chars:\n      if c in full_name:\n        break\n"
+       "      else:\n        return full_name\n", 'R-C13-name'),
+    _m('verilog-cmp-last-line-wins', VUTIL,
+       "  is_same_len = len(tmp_v) == len(out_v)\n  if is_same_len:\n    for i in range(len(out_v)):\n"
+       "      if out_v[i] != tmp_v[i]:\n        return False\n  return is_same_len",
+       "  is_same = len(tmp_v) == len(out_v)\n  if is_same:\n    for tmp_line, out_line in zip( tmp_v, out_v ):\n"
+       "      is_same = tmp_line == out_line\n  return is_same", 'R-C13-once'),
+    _m('verilog-cmp-skips-first-line', VUTIL, "    for i in range(len(out_v)):", "    for i in range(1, len(out_v)):", 'R-C13-once'),
+    _m('keyword-table-missing-comma', VUTIL, '"rcmos", "real", "realtime",\n', '"rcmos", "real", "realtime"\n', 'R-C13-reserved'),
+    _m('keyword-table-drops-logic', VUTIL, '"intersect", "join_any", "join_none", "local", "logic", "longint",',
+       '"intersect", "join_any", "join_none", "local", "longint",', 'R-C13-reserved'),
+    _m('two-tables-one-dict', SL1,
+       "    s.structural.component_explicit_module_name = {}\n    s.structural.component_no_synthesis = {}\n",
+       "    s.structural.component_explicit_module_name = \\\n    s.structural.component_no_synthesis = {}\n", 'R-C13-state'),
+    _m('two-tables-through-one-local', SL1,
+       "    s.structural.decl_ports  = {}\n    s.structural.decl_wires  = {}\n",
+       "    empty = {}\n    s.structural.decl_ports  = empty\n    s.structural.decl_wires  = empty\n", 'R-C13-state'),
+    _m('definitions-keyed-by-unique-name-only', TRANSLATOR,
+       "        name = s.structural.component_explicit_module_name[m] or \\\n               s.structural.component_unique_name[m]\n",
+       "        name = s.structural.component_unique_name[m]\n", 'R-C13-once'),
     # --- R-C13-state
     _m('translator-state-initialised-once', VTRANSLATOR,
        "      s._mangled_placeholder_top_module_name = ''\n      s._included_pickled_files = set()\n",
@@ -3346,8 +3747,10 @@ EQUIV = [
     _m('special-chars-guard-set-intersection', VUTIL, "not any([c in full_name for c in special_chars])",
        "not ( set( full_name ) & set( special_chars ) )", None),
     _m('translate-component-locals-renamed', TRANSLATOR,
-       "        name = s.structural.component_unique_name[m]\n        if name not in components:\n          components[name] = s.rtlir_tr_component(",
-       "        uname = s.structural.component_unique_name[m]\n        if not uname in components:\n          components[uname] = s.rtlir_tr_component(",
+       "        name = s.structural.component_explicit_module_name[m] or \\\n               s.structural.component_unique_name[m]\n"
+       "        if name not in components:\n          components[name] = s.rtlir_tr_component(",
+       "        uname = s.structural.component_explicit_module_name[m] or \\\n               s.structural.component_unique_name[m]\n"
+       "        if not uname in components:\n          components[uname] = s.rtlir_tr_component(",
        None),
     _m('struct-name-memo-keyed-by-class', RUTIL,
        "        return get_rtlir_dtype( obj() ).get_name()\n",
@@ -3474,6 +3877,19 @@ EQUIV = [
        "  comp_name = c_rtype.get_name()\n",
        "  comp_name = c_rtype.get_name()\n  special_chars = [' ', '<', '>', '.', '[', ']']\n\n"
        "  if len( full_name ) < 64 and not any([c in full_name for c in special_chars]):\n    return full_name\n\n", None),
+    _m('special-character-loop-with-for-else', VUTIL,
+       "  if len( full_name ) < 64 and not any([c in full_name for c in special_chars]):\n    return full_name\n",
+       "  if len( full_name ) < 64:\n    for c in special_chars:\n      if c in full_name:\n        break\n"
+       "    else:\n      return full_name\n", None),
+    _m('verilog-cmp-conjunction-with-zip', VUTIL,
+       "  is_same_len = len(tmp_v) == len(out_v)\n  if is_same_len:\n    for i in range(len(out_v)):\n"
+       "      if out_v[i] != tmp_v[i]:\n        return False\n  return is_same_len",
+       "  is_same = len(tmp_v) == len(out_v)\n  if is_same:\n    for tmp_line, out_line in zip( tmp_v, out_v ):\n"
+       "      is_same = is_same and tmp_line == out_line\n  return is_same", None),
+    _m('keyword-table-explicit-concatenation', VUTIL, '"rcmos", "real", "realtime",\n', '"rcmos", "real", "real" + "time",\n', None),
+    _m('two-tables-separate-dict-calls', SL1,
+       "    s.structural.component_explicit_module_name = {}\n    s.structural.component_no_synthesis = {}\n",
+       "    s.structural.component_explicit_module_name = dict()\n    s.structural.component_no_synthesis = dict()\n", None),
     _m('local-renamed-in-unique-name', VUTIL, "  param_name = param_hash.hexdigest()\n  return comp_name + \"__\" + param_name",
        "  digest = param_hash.hexdigest()\n  return comp_name + \"__\" + digest", None),
 ]
